@@ -74,8 +74,23 @@ theorem nav_reach {h : Heap} : ∀ (p : List String) (l x : Loc), nav h l p = so
 
 /-! ### Slots -/
 
+theorem mem_dropKey {ss : List (String × Val)} {k k' : String} {v' : Val} (hm : (k', v') ∈ dropKey k ss) :
+    (k', v') ∈ ss ∧ k' ≠ k := by
+  induction ss with
+  | nil => simp [dropKey] at hm
+  | cons kv ss ih =>
+    obtain ⟨k0, v0⟩ := kv
+    unfold dropKey at hm
+    by_cases hk : k0 = k
+    · simp only [hk, if_true] at hm
+      exact ⟨List.mem_cons_of_mem _ (ih hm).1, (ih hm).2⟩
+    · simp only [hk, if_false] at hm
+      rcases List.mem_cons.mp hm with h1 | h1
+      · cases h1; exact ⟨List.mem_cons_self, hk⟩
+      · exact ⟨List.mem_cons_of_mem _ (ih h1).1, (ih h1).2⟩
+
 theorem mem_slotSet {ss : List (String × Val)} {k k' : String} {v v' : Val}
-    (hm : (k', v') ∈ slotSet ss k v) : (k', v') ∈ ss ∨ (k' = k ∧ v' = v) := by
+    (hm : (k', v') ∈ slotSet ss k v) : ((k', v') ∈ ss ∧ k' ≠ k) ∨ (k' = k ∧ v' = v) := by
   induction ss with
   | nil => simp [slotSet] at hm; exact Or.inr hm
   | cons kv ss ih =>
@@ -85,12 +100,13 @@ theorem mem_slotSet {ss : List (String × Val)} {k k' : String} {v v' : Val}
     · simp only [hk, if_true] at hm
       rcases List.mem_cons.mp hm with h1 | h1
       · simp at h1; exact Or.inr ⟨h1.1, h1.2⟩
-      · exact Or.inl (List.mem_cons_of_mem _ h1)
+      · have := mem_dropKey h1
+        exact Or.inl ⟨List.mem_cons_of_mem _ this.1, this.2⟩
     · simp only [hk, if_false] at hm
       rcases List.mem_cons.mp hm with h1 | h1
-      · exact Or.inl (h1 ▸ List.mem_cons_self)
+      · cases h1; exact Or.inl ⟨List.mem_cons_self, hk⟩
       · rcases ih h1 with h2 | h2
-        · exact Or.inl (List.mem_cons_of_mem _ h2)
+        · exact Or.inl ⟨List.mem_cons_of_mem _ h2.1, h2.2⟩
         · exact Or.inr h2
 
 /-! ### Heap extension -/
@@ -261,7 +277,7 @@ theorem applyEdit_local {h : Heap} {root l : Loc} (wf : WF h) (hroot : root < h.
       · simpa using this
       · intro k' c hm
         rcases mem_slotSet hm with h1 | h1
-        · exact Or.inl ⟨k', h1⟩
+        · exact Or.inl ⟨k', h1.1⟩
         · cases h1.2
   | push v =>
     unfold applyEdit
@@ -294,7 +310,7 @@ theorem applyEdit_local {h : Heap} {root l : Loc} (wf : WF h) (hroot : root < h.
         refine stepLocal_of_write (ext := [Obj.mk kind ss]) wf hroot ⟨rl, ho, ?_, ?_⟩
         · intro k' c hm
           rcases mem_slotSet hm with h1 | h1
-          · exact Or.inl ⟨k', h1⟩
+          · exact Or.inl ⟨k', h1.1⟩
           · have : c = h.length := by
               have := h1.2; injection this
             subst this
